@@ -161,6 +161,19 @@ CHECKS = {
         design="§8 C10",
         technique="Lean 4 proof (corollary of the dispatch refinement + record algebra) + L2 differential through the real helpers and entry points",
         note=TB + " cosmwasm_std's WasmMsg/QueryRequest encoding and the chain's delivery of the message are outside the model (the harness delivers the body itself)."),
+    "C12": dict(
+        text="Machine-checked refinement proof: for every well-formed program, every starting chain and every history of proxy calls (store, instantiate with any setter "
+             "sequence, exec with/without funds, query, sudo, migrate), running the history with the *specification* of a proxy call (the like-named handler is called "
+             "directly with those values) equals running the lowered raw-JSON history through the model of the generated decode+dispatch code: same final chain state, same "
+             "result at every step (history_equiv, by C02.dispatch_exact); a failing step leaves the chain unchanged; option defaults / last-writer-wins / commutation; a "
+             "handler's error is returned as that value, no proxy unwraps a downcast (table regenerated from source). The lowering, the defaults, the setters, the call forms "
+             "and the kind spliced into each of the six Contract operations are re-read from contract/mt.rs, interface/mt.rs and multitest.rs on every run. Tie: random "
+             "histories per compiled generated contract run through the real proxies on one cw-multi-test chain and, lowered by the model, as raw JSON bytes on a second "
+             "identically seeded chain; after every step result and full chain state (contract records, storage, balances) of both chains and of the model are compared.",
+        design="§8 C12",
+        technique="Lean 4 proof (refinement of proxy histories to raw-JSON histories over an abstract chain) + tables regenerated from source + L2 twin-chain differential",
+        note=TB + " cw-multi-test is modelled only as far as the histories exercise it (balances, contract records, atomic steps, five own errors); reply and override "
+                  "attributes are not reachable through proxies; query handler errors cross cosmwasm's querier as text on both paths."),
     "C16": dict(
         text="Machine-checked proofs on the model of the QueryResponses derives: the response map of a contract's query type has exactly one entry per query variant of the "
              "contract and of every implemented interface, keyed by wire name with the declared response type (explicit resp= wins), and the wrapper's map is the union of the "
@@ -185,14 +198,14 @@ def main():
             "enable": "SYLVIA_VERIF_HARNESS=/verif/harness/hook/hook_main.rs cargo test --offline -p sylvia-derive --features verif-hook --lib -- verif_hook::verif_entry --exact",
             "baseline_off_cmd": "cd /repo && cargo test --workspace --no-fail-fast --offline",
             "source_commits": ["f0dc71d"],
-            "fix_commits": ["a51e7a3", "fead2e3", "dbb2669", "e4181bc", "dd80324", "43435f7", "3dc7e41", "b235c27"],
+            "fix_commits": ["a51e7a3", "fead2e3", "dbb2669", "e4181bc", "dd80324", "43435f7", "3dc7e41", "b235c27", "a0acd45"],
             "add_only": True,
         },
         "engines": [
             {"name": "lean", "path": "lean/", "serves_properties": sorted(CHECKS), "kind_free_text": "Lean 4 model + theorems + svmodel line-protocol driver"},
             {"name": "hook", "path": "harness/hook/", "serves_properties": ["C06", "C13", "C01", "C02", "C03", "C04", "C05", "C14", "C15", "C17", "C18", "C19"], "kind_free_text": "in-process macro expansion + source translator, compiled into sylvia-derive tests via the verif-hook feature (L1)"},
             {"name": "rt", "path": "harness/rt/", "serves_properties": ["C05", "C01", "C11", "C20"], "kind_free_text": "Rust harness calling the real runtime library (L3)"},
-            {"name": "corpus", "path": "harness/corpus/ + vlib/corpus.py", "serves_properties": ["C01", "C02", "C03", "C04", "C05", "C07", "C08", "C09", "C10", "C14", "C16"], "kind_free_text": "generated contracts compiled against /repo/sylvia with echo handlers (L2)"},
+            {"name": "corpus", "path": "harness/corpus/ + vlib/corpus.py", "serves_properties": ["C01", "C02", "C03", "C04", "C05", "C07", "C08", "C09", "C10", "C12", "C14", "C16"], "kind_free_text": "generated contracts compiled against /repo/sylvia with echo handlers (L2)"},
         ],
         "checks": [],
         "not_applicable": [],
